@@ -4,7 +4,8 @@ current harness and updates meta.json (check_results, caught_by, first_violation
   tools/seeded_recheck.py [name ...] [--jobs N]"""
 import concurrent.futures, json, os, subprocess, sys, glob
 V = os.path.dirname(os.path.dirname(os.path.abspath(__file__)))
-names = [a for a in sys.argv[1:] if not a.startswith("--") and not a.isdigit()]
+only_props = sys.argv[sys.argv.index("--props") + 1] if "--props" in sys.argv else None
+names = [a for a in sys.argv[1:] if not a.startswith("--") and not a.isdigit() and a != only_props]
 par = int(sys.argv[sys.argv.index("--jobs") + 1]) if "--jobs" in sys.argv else 2
 notes = json.load(open(os.path.join(V, "tools", "seeded_notes.json")))
 commit = subprocess.run(["git", "-C", V, "rev-parse", "--short", "HEAD"], stdout=subprocess.PIPE, text=True).stdout.strip()
@@ -15,13 +16,22 @@ if names:
 def one(patch):
     d = os.path.dirname(patch)
     name = os.path.basename(d)
-    p = subprocess.run([os.path.join(V, "tools", "mutant_eval.py"), patch, "--skip-suite", "--jobs", "5"], stdout=subprocess.PIPE, stderr=subprocess.STDOUT, text=True, errors="replace")
+    cmd = [os.path.join(V, "tools", "mutant_eval.py"), patch, "--skip-suite", "--jobs", "5"]
+    if only_props:
+        cmd += ["--props", only_props]
+    p = subprocess.run(cmd, stdout=subprocess.PIPE, stderr=subprocess.STDOUT, text=True, errors="replace")
     meta = json.load(open(os.path.join(d, "meta.json")))
     try:
         s = json.loads(p.stdout.strip().splitlines()[-1])
-        meta["check_results"] = s.get("results")
-        meta["caught_by"] = s.get("caught_by")
-        meta["first_violation"] = {l.split()[0]: l[:400] for l in p.stdout.splitlines() if " VIOLATION " in l}
+        res = dict(meta.get("check_results") or {}) if only_props else {}
+        res.update(s.get("results") or {})
+        fv = dict(meta.get("first_violation") or {}) if only_props else {}
+        for k in (s.get("results") or {}):
+            fv.pop(k, None)
+        fv.update({l.split()[0]: l[:400] for l in p.stdout.splitlines() if " VIOLATION " in l})
+        meta["check_results"] = res
+        meta["caught_by"] = sorted(k for k, v in res.items() if v == 1)
+        meta["first_violation"] = fv
         meta["checks_run"] = "tools/mutant_eval.py: every property's quick check against a scratch copy of /repo with patch.diff applied (VERIF_REPO), copy removed afterwards"
         meta["harness_commit"] = commit
     except Exception as e:
